@@ -654,6 +654,10 @@ class PhaseField(_Simu):
         iter["convIter"] = self.__convIter
 
         if self.phaseFieldModel.solver == self.phaseFieldModel.SolverType.History:
+            # the history field stored with the iteration contains the energy of the displacement
+            # being saved (the last damage problem was built before the last displacement solve)
+            for groupElem in self.mesh.Get_list_groupElem():
+                self.__Calc_psiPlus_e_pg(groupElem)
             # update old history field for next resolution
             self.__old_psiP_e_pg = dict(self.__psiP_e_pg)
             # the history field is part of the state of the iteration
